@@ -69,6 +69,22 @@ def handle (cmd : String) (args : List Int) : Option String :=
       match quadOf r o with
       | some q => pure (encFloats (flatOf q))
       | none => pure "unsupported"
+  | "C05.tablecheck" => do
+      -- native evaluation of the table checkers (names the failing monomial when a table theorem
+      -- stops checking; the informational facts are reported, not demanded)
+      let (r, o) ← run (do let r ← nat; let o ← nat; pure (r, o)) args
+      let D := Gen.Quad.DEN
+      let T := 10 ^ 12
+      if r == 1 then
+        let t := Gen.Quad.tri o
+        let bad := match triFirstBad D t (triDeg o) T with
+          | some (a, b, c) => s!"{a},{b},{c}" | none => "none"
+        pure s!"firstbad={bad} wsum={encBool (triWeightsSumB D t T)} pos={encBool (triWeightsPosB t)} sym={encBool (triSymmetricB t)} bary={encBool (triBaryB D t T)} inside={encBool (triPointsNonnegB t)} sharp={encBool (triInexactAtB D t (triDeg o + 1) (10 ^ 13))} deg={triDeg o} npts={t.length}"
+      else
+        let t := Gen.Quad.gauss o
+        let bad := match gaussFirstBad D t (gaussDeg o) T with
+          | some d => s!"{d}" | none => "none"
+        pure s!"firstbad={bad} wsum={encBool (gaussMomentOK D t T 0)} pos={encBool (gaussWeightsPosB t)} sym={encBool (gaussSymmetricB D t T)} bary=1 inside={encBool (gaussNodesInUnitB D t)} sharp={encBool (!gaussMomentOK D t (10 ^ 13) (gaussDeg o + 1))} deg={gaussDeg o} npts={t.length}"
   | "C05.areas" => do
       let (r, o, mode, t, N, c) ← run (do
         let r ← nat; let o ← nat; let m ← nat; let t ← rows; let N ← nats; let c ← floats
